@@ -12,7 +12,14 @@ real gemseo objects (spec -> code):
   it is called at; the instances with a design space, default x_indices and a scalar step also through
   OptimizationProblem(design_space, differentiation_method, differentiation_step) (replay_problem);
 * level "disc" (c16_disc.py): DisciplineJacApprox.compute_approx_jac with input/output subsets and
-  x_indices, Discipline.linearize in the three approximation modes, Discipline.check_jacobian(indices=...).
+  x_indices, Discipline.linearize in the three approximation modes (also after another mode was set),
+  Discipline.check_jacobian / DisciplineJacApprox.check_jacobian(indices=...) on analytic Jacobians that are
+  right / wrong in a stored entry / by a missing entry / by an extra entry, dense or sparse; default inputs
+  that differ from the linearisation point;
+* histories on one approximator object (c16_hist.py, DerivApproxHist.tla): Approximate / SetUpperBound /
+  SetLowerBound / SetStep interleaved, the bounds of a call are those at the time of the call.
+
+Steps are signed; a complex step is handed over as h or as h.i.
 
 Python only transports values: polynomials, points, steps and expected numbers all come from TLC.
 """
@@ -28,7 +35,15 @@ from ..core import Check, MachineryError, main
 
 K = 7
 S = 2 ** K
-INVS = ["Shape", "WithinBounds", "OneComponent", "ErrorEqualsOrderTerm", "OrderBound", "DiscShape"]
+INF = 64 * S  # DerivApproxHist!Inf: "unbounded" (an integer like every other bound of the specification)
+
+
+def bound(v):
+    """A bound of the specification (scale S) as a float."""
+    return float("inf") if v >= INF else -float("inf") if v <= -INF else v / S
+
+INVS = ["Shape", "WithinBounds", "OneComponent", "ErrorEqualsOrderTerm", "OrderBound", "DiscShape",
+        "CheckVerdictMeaning"]
 
 
 def cfg(level, rich, emit):
@@ -113,6 +128,12 @@ def subset_class(idx0, n, dflt):
     return "non_prefix"
 
 
+def step_sign(hs):
+    """Class of the signs of the steps of an instance, for signatures."""
+    neg = [h < 0 for h in hs]
+    return "negative" if all(neg) else "mixed" if any(neg) else "positive"
+
+
 def exc_class(ex):
     m = str(ex)
     if "broadcast" in m:
@@ -163,10 +184,12 @@ def replay_approx(ck: Check, funs, I, jac, pts, k, par="serial"):
     x = np.array(I["X"], dtype=float) / S
     hs = np.array(I["hs"], dtype=float) / S
     step = float(hs[0]) if I["sk"] == "scalar" else hs
+    if I.get("sf") == "imag":  # a complex step handed over as the imaginary number h.i
+        step = 1j * step
     lb, ub = list(I["lb"]), list(I["ub"])
-    near = any(I["ds"] != "none" and ub[c] - h < I["X"][c] < ub[c] for c, h in zip(idx0, I["hs"]))
+    near = any(I["ds"] != "none" and ub[c] - abs(h) < I["X"][c] < ub[c] for c, h in zip(idx0, I["hs"]))
     sig = {"level": "approx", "method": meth, "ds": I["ds"], "subset": subset_class(idx0, n, I["dflt"]),
-           "step": I["sk"], "par": par}
+           "step": I["sk"], "par": par, "step_sign": step_sign(I["hs"]), "step_form": I.get("sf", "real")}
     case = {"instance": I, "x": x.tolist(), "step": np.asarray(step).tolist(), "x_indices": idx0,
             "expected_jac_scaled": jac, "scale": S * S}
     logfile = None
@@ -203,20 +226,29 @@ def replay_approx(ck: Check, funs, I, jac, pts, k, par="serial"):
             os.remove(logfile)
     else:
         logged = set(f.log)
+    return judge(ck, sig, case, I, f.m, n, idx0, g, logged, jac, pts, near)
+
+
+def judge(ck: Check, sig, case, I, m, n, idx0, g, logged, jac, pts, near):
+    """Compare what one f_gradient call did (the points the function was called at, the returned array)
+    with what the specification computed for the instance I (bounds = those of I: the bounds at the time of
+    the call).  Returns True when the call is quiet."""
+    meth = I["meth"]
+    ub = [bound(u) for u in I["ub"]]
     quiet = True
     # bound safety on the points the function was really called at
     if I["ds"] != "none":
-        over = [p for p in logged if any(p[c][0] > ub[c] / S for c in range(n))]
+        over = [p for p in logged if any(p[c][0] > ub[c] for c in range(n))]
         if over:
             ck.violation("WithinBounds", dict(sig, near_ub=near),
-                         dict(case, beyond_upper_bound=sorted(over), ub=[u / S for u in ub]))
+                         dict(case, beyond_upper_bound=sorted(over), ub=ub))
             return False
     want_pts = spec_points(pts)
     if logged != want_pts:
         ck.violation("EvalPoints", sig, dict(case, impl=sorted(logged), spec=sorted(want_pts)))
         quiet = False
     g = np.asarray(g)
-    want = np.array(jac, dtype=float).reshape(f.m, len(idx0)) / (S * S)
+    want = np.array(jac, dtype=float).reshape(m, len(idx0)) / (S * S)
     if g.shape != want.shape:
         ck.violation("Shape", sig, dict(case, impl_shape=list(g.shape), spec_shape=list(want.shape)))
         return False
@@ -242,10 +274,10 @@ def replay_problem(ck: Check, funs, I, jac, pts, k):
     x = np.array(I["X"], dtype=float) / S
     h = I["hs"][0] / S
     lb, ub = list(I["lb"]), list(I["ub"])
-    near = any(ub[c] - I["hs"][0] < I["X"][c] < ub[c] for c in range(n))
+    near = any(ub[c] - abs(I["hs"][0]) < I["X"][c] < ub[c] for c in range(n))
     use_db = k % 2 == 1
     sig = {"level": "problem", "method": meth, "ds": I["ds"], "subset": "all_default", "step": "scalar",
-           "par": "serial"}
+           "par": "serial", "step_sign": step_sign(I["hs"]), "step_form": "real"}
     case = {"instance": I, "x": x.tolist(), "step": h, "use_database": use_db,
             "expected_jac_scaled": jac, "scale": S * S}
     f = PolyFn(funs[I["fid"]])
@@ -298,11 +330,11 @@ def run(ck: Check):
         phases[name] = round(time.time() - t0, 1)
         t0 = time.time()
     # ---- 1. exhaustive check of the specification's own properties (both levels)
-    # (per-expression coverage of the recursive polynomial operators is expensive: it is collected on the
-    # small discipline-level run; on the approximator level non-vacuity is established below by
-    # distinct states == 2 x instances, i.e. Compute was taken, and the invariants evaluated, on every one)
-    rx = ck.tlc("DerivApprox", cfg("approx", rich, False), workers=8, timeout=1500, coverage=False)
-    ck.tlc("DerivApprox", cfg("disc", rich, False), workers=8, timeout=1500, require_actions=("Compute",))
+    # (per-expression coverage of the recursive polynomial operators is expensive: non-vacuity is established
+    # below by distinct states == 2 x instances at depth 2, i.e. Compute was taken, and the invariants
+    # evaluated, on every instance of both levels)
+    rx = ck.tlc("DerivApprox", cfg("approx", rich, False), workers=4, timeout=1500, coverage=False)
+    rdx = ck.tlc("DerivApprox", cfg("disc", rich, False), workers=4, timeout=1500, coverage=False)
     lap("tlc_exhaustive")
     # ---- 2. approximator level: instances + expected results from TLC, replayed on gemseo
     r = ck.tlc("DerivApprox", cfg("approx", rich, True), workers=1, timeout=1500, count=False, coverage=False)
@@ -344,7 +376,8 @@ def run(ck: Check):
     lap("replay_approx_parallel")
     # the same instances through an optimisation problem (the place where gemseo hands a design space to
     # the approximators): default x_indices, scalar step, with a design space
-    prob = [k for k, (I, _, _) in enumerate(cases) if I["dflt"] and I["sk"] == "scalar" and I["ds"] != "none"]
+    prob = [k for k, (I, _, _) in enumerate(cases)
+            if I["dflt"] and I["sk"] == "scalar" and I["ds"] != "none" and I["sf"] == "real"]
     cap = 6000 if rich else 1500
     if len(prob) > cap:
         prob = sorted(rng.sample(prob, cap))
@@ -358,11 +391,17 @@ def run(ck: Check):
 
     r = ck.tlc("DerivApprox", cfg("disc", rich, True), workers=1, timeout=1500, count=False, coverage=False)
     dcases = [v[1:] for v in printed_records(r.out) if v[0] == "DISC"]
-    if len(dcases) * 2 != r.distinct:
-        raise MachineryError(f"printing run: {len(dcases)} DISC records for {r.distinct} states")
+    if len(dcases) * 2 != r.distinct or rdx.distinct != r.distinct or rdx.depth != 2:
+        raise MachineryError(f"printing run: {len(dcases)} DISC records for {r.distinct} states "
+                             f"(exhaustive run: {rdx.distinct} states, depth {rdx.depth})")
     lap("tlc_print_and_parse_disc")
     c16_disc.run(ck, funs, dcases, rng)
     lap("replay_disc")
+    # ---- 4. histories on one approximator object (DerivApproxHist.tla)
+    from . import c16_hist
+
+    c16_hist.run(ck, funs)
+    lap("histories")
     ck.exhaustive = True  # every instance of the bounded enumeration is replayed serially
     ck.assumptions += [
         "exact-arithmetic slice: polynomials of degree <= 3 with integer coefficients, dyadic points/steps "
